@@ -1,6 +1,6 @@
 """C14 — the management API never blocks the data plane; a stalled client hurts only itself (lock-discipline kernels)."""
 import harness
-from specs import locks
+from specs import locks, replies
 
 
 def run(ck):
@@ -15,4 +15,6 @@ def run(ck):
     locks.spec_http_handshake(ck)
     locks.spec_dispatcher_locks(ck)
     locks.spec_gc_locks(ck)
+    # the reply callbacks run under the connection's write lock: they send, they never wait for the client
+    replies.spec_socks_callbacks(ck)
     ck.post_filter = lambda o: o.label.startswith('C14/') or o.status in ('undecided', 'vacuous', 'inconclusive')
